@@ -212,6 +212,7 @@ def _f21(f, pid, case, clause, ctx):
         return False
     txt = " ".join(str(case.get(k, "")) for k in ("detail", "err", "opt_err"))
     txt += " ".join(str(p.get("val", {}).get("err", "")) for p in case.get("phases", []))
+    txt += " ".join(str(o.get("val", {}).get("err", "")) for o in case.get("obs", []))      # C09: raises under optimize-graph = True only
     return "window shape cannot be larger than input array shape" in txt
 
 
@@ -257,7 +258,11 @@ def _f26(f, pid, case, clause, ctx):
 def _f36(f, pid, case, clause, ctx):
     import ast
 
-    if case.get("fn") != "history" or not clause.startswith("value-depends-on-history-or-configuration"):
+    if case.get("fn") != "history" or not (clause.startswith("value-depends-on-history-or-configuration")
+                                            or clause.startswith("raises-depending-on-history-or-configuration")):
+        return False
+    if clause.startswith("raises") and not any("Chunks do not add up" in str(o.get("val", {}).get("err", "")) or "Missing dependency" in str(o.get("val", {}).get("err", ""))
+                                               for o in case.get("obs", [])):
         return False
     prog = case.get("prog", [])
     # trigger: an operation that unifies the chunks of two array operands (elementwise with two arrays, where) ...
@@ -269,6 +274,23 @@ def _f36(f, pid, case, clause, ctx):
         return False
     # ... observed under configurations that differ in the unification policy / limit
     return len(cfgs) >= 2 and any(any(c[k] != cfgs[0][k] for c in cfgs[1:]) for k in f["params"]["keys"])
+
+
+@matcher("frisky_fast_path_probes_block_independence_on_a_sample")
+def _f37(f, pid, case, clause, ctx):
+    if case.get("fn") != "records" or clause != "records-block-value-differs-from-the-dask-graph":
+        return False
+    prog = case.get("prog", [])
+    # trigger: a creation array (its block tasks carry the block shape as a literal) whose grid has, at a position the
+    # probe sample (first, last, middle block) never visits, a block of another size than block 0
+    if not prog or prog[0].get("kind") != "c":
+        return False
+    for ax in (case.get("grids") or [[]])[0]:
+        n = len(ax)
+        probed = {0, n - 1, n // 2}
+        if any(ax[i] != ax[0] for i in range(n) if i not in probed):
+            return True
+    return False
 
 
 @matcher("dask_int_array_index_out_of_bounds_wraps")
